@@ -25,7 +25,7 @@ def show_ops(ops):
             out.append(f"SN(t{o[1]},c{o[2]:02d})")
         elif o[0] == "HIDE":
             out.append(f"HIDE(seg#{o[1]},t{o[2]})")
-        elif o[0] in ("BGC", "JOINC", "JOIN", "SETTLE", "UNHIDE"):
+        elif o[0] in ("BGC", "JOINC", "JOIN", "SETTLE", "UNHIDE", "CSNAP"):
             out.append(o[0])
         elif o[0] == "WAITMORE":
             out.append(f"WAITMORE({o[1]},{o[2]})")
